@@ -12,7 +12,10 @@ def extra(led, tier, seed):
     from contracts import repro, forwarding
     led.extend(repro.fit_obligations())
     led.extend(repro.predict_effects())
+    from contracts import gemini_registry
+    led.extend(gemini_registry.frame_obligations())
     led.extend(repro.path_frame())
+    led.extend(repro.path_wrapper_frame())
     from contracts import batching
     led.extend(o for o in batching.fx_obligations() if 'disguise_batch' in o.name)
     led.extend(forwarding.init_obligations(forwarding.estimators_all()))
